@@ -233,7 +233,8 @@ func readCurrentRegex(filePath string, ruleId string, chainOffset uint8) string 
 			break
 		}
 	}
-	if !foundRule || chainOffset != chainCount {
+	if !foundRule || chainOffset != chainCount || index < 0 {
+		// index < 0: the id action is on the first line of the file, no SecRule line precedes it
 		logger.Fatal().Msgf("Failed to find rule %s, chain offset, %d in %s", ruleId, chainOffset, filePath)
 	}
 	regexLine := lines[index]
